@@ -2,7 +2,7 @@
 import json
 import os
 
-from .. import extract, flow, guards, intervals, lenrel, optstate
+from .. import extract, flow, guards, inline, intervals, lenrel, optstate
 from ..facts import callee_def, short
 from ..report import AnchorMissing
 from ..roles import Roles
@@ -190,7 +190,25 @@ def discharge(db, b, s):
         why = discharge_lib_const(db, b, s)
         if why:
             return why
-    return infeasible_otherwise(db, b, bi)
+    why = infeasible_otherwise(db, b, bi)
+    if why or s.get("_in_context"):
+        return why
+    # the site lies in a helper (a stage, an extracted block): decide it where the helper is used, with the helper inlined
+    try:
+        ctx = inline.contexts_of(db, b, bi)
+    except Exception:
+        ctx = []
+    if ctx:
+        whys = []
+        for ib, cbi in ctx:
+            if ib.blocks[cbi]["term"].get("k") != t.get("k"):
+                return None
+            w = discharge(db, ib, dict(s, bi=cbi, body=ib, _in_context=True))
+            if not w:
+                return None
+            whys.append(w)
+        return "in each of the %d places the helper is inlined into: %s" % (len(whys), whys[0])
+    return None
 
 
 def discharge_lib_const(db, b, s):
